@@ -76,7 +76,16 @@ META = {
              "with two partners, some of them narrower traits - Range, String(maxlen), "
              "List(maxlen), List(Range) - that refuse some of the values, or one-way targets "
              "changed locally) so that an open finding in one stratum "
-             "does not truncate the others. distinct_nontrivial counts distinct (op class, source "
+             "does not truncate the others. A seventh, ENUMERATED stratum (gcpoints) puts the collection "
+             "of the partner(s) INSIDE one operation: 11 link shapes (one / several / chained victims, "
+             "one-way either way, alias, victim at distance 2 or in the middle) x 16 operations "
+             "(assignments, every kind of list mutation, sync_trait linking a further object, "
+             "sync_trait(remove=True)) on the operated object or on the survivor; the victims are "
+             "cyclic garbage, automatic collection is off, and the operation is re-run on a fresh twin "
+             "with gc.collect() injected before the k-th statement executed inside the traits package "
+             "(sys.monitoring LINE events) for EVERY k; judged: nothing raised, nothing on the "
+             "exception channels, survivor equal, victims dead, follow-up changes forwarded in both "
+             "directions (a lock left set shows there). distinct_nontrivial counts distinct (op class, source "
              "context, reach size class, mutual-class size class, alias involved, outcome class, "
              "notified-node count class) signatures of steps in which something changed, was "
              "propagated, was raised or arrived on an exception channel."),
@@ -110,7 +119,12 @@ META = {
                   "weak_before_updated_assign": 85, "weak_before_updated_assign-list": 30,
                   "weak_before_updated_list-mutation": 210,
                   "drifted_target_served_before_updated_partner": 190,
-                  "drifted_target_before_updated_partner_extended_slice": 30},
+                  "drifted_target_before_updated_partner_extended_slice": 30,
+                  "gcpoint_runs": 30000, "gcpoint_effective": 18000,
+                  "gcpoint_followups_both_directions": 18000, "gcpoint_victims_died": 30000,
+                  "gcpoint_links_made_during_collection": 300,
+                  "gcpoint_unlinks_during_collection": 900,
+                  "gcpoint_distinct_effective_lines": 1500},
         "thorough": {"evaluations": 1900000, "propagations_checked": 400000,
                      "mutual_list_mutations": 150000, "oneway_assignments": 34000,
                      "reverse_direction_checks": 88000, "ops_after_unlink": 100000,
@@ -140,7 +154,12 @@ META = {
                      "weak_before_updated_assign": 1050, "weak_before_updated_assign-list": 370,
                      "weak_before_updated_list-mutation": 2600,
                      "drifted_target_served_before_updated_partner": 2400,
-                     "drifted_target_before_updated_partner_extended_slice": 370},
+                     "drifted_target_before_updated_partner_extended_slice": 370,
+                     "gcpoint_runs": 30000, "gcpoint_effective": 18000,
+                     "gcpoint_followups_both_directions": 18000, "gcpoint_victims_died": 30000,
+                     "gcpoint_links_made_during_collection": 300,
+                     "gcpoint_unlinks_during_collection": 900,
+                     "gcpoint_distinct_effective_lines": 1500},
     },
     "assumptions": [
         "the model (directed link graph + value semantics of assignment, slice semantics of a "
@@ -1497,6 +1516,9 @@ def run(ctx):
     sys.unraisablehook = _unraisable
     gc.collect()
     gc.freeze()
+    # stratum "gcpoints": the partner is collected at every statement of an operation
+    from vf.monitors import _c20_gcpoints
+    _c20_gcpoints.run(ctx)
     nh = ctx.scale(24000, 300000)
     nops = ctx.scale(24, 28)
     sampled = 0
